@@ -25,8 +25,8 @@ def suite_ok(wt):
     rc, out = sh("cargo test --offline -j 8 -- --test-threads 8 2>&1 | grep 'test result' | head -1", cwd=wt)
     return "60 passed; 0 failed" in out, out.strip()
 
-def demo(wt, feats, release=False):
-    cmd = "cargo test --offline -j 8 %s --test seed_demo %s -- --test-threads 4 2>&1 | tail -30" % ("--release" if release else "", ("--features " + feats) if feats else "")
+def demo(wt, feats, release=False, nodef=False):
+    cmd = "cargo test --offline -j 8 %s %s --test seed_demo %s -- --test-threads 4 2>&1 | tail -30" % ("--release" if release else "", "--no-default-features" if nodef else "", ("--features " + feats) if feats else "")
     rc, out = sh(cmd, cwd=wt)
     ok = ("test result: ok" in out) and ("FAILED" not in out) and ("error" not in out.split("test result")[0][-2000:] or True)
     return ok and "test result: ok" in out, out
@@ -46,10 +46,11 @@ def verify(wt, prop):
             print(x, "meta.json unreadable", e)
         feats = (meta.get("features") or "").strip()
         release = "--release" in (meta.get("demo_cmd") or "")
+        nodef = "--no-default-features" in (meta.get("demo_cmd") or "")
         sh("git checkout -- . && rm -f tests/seed_demo.rs", cwd=wt)
         os.makedirs(os.path.join(wt, "tests"), exist_ok=True)
         shutil.copy(os.path.join(d, "demo.rs"), os.path.join(wt, "tests/seed_demo.rs"))
-        clean_ok, out0 = demo(wt, feats, release)
+        clean_ok, out0 = demo(wt, feats, release, nodef)
         rc, out = sh(["git", "apply", patch], cwd=wt)
         if rc != 0:
             print(prop, x, "patch does not apply:", out)
@@ -57,7 +58,7 @@ def verify(wt, prop):
         # the patch must not touch tests / Cargo.toml / verif hooks
         rc, names = sh("git diff --name-only", cwd=wt)
         bad_files = [n for n in names.split() if not n.startswith("src/")]
-        mut_fail, out1 = demo(wt, feats, release)
+        mut_fail, out1 = demo(wt, feats, release, nodef)
         os.remove(os.path.join(wt, "tests/seed_demo.rs"))
         s_ok, s_out = suite_ok(wt)
         sh("git checkout -- .", cwd=wt)
@@ -72,7 +73,7 @@ def verify(wt, prop):
                 "property": prop,
                 "summary": meta.get("summary", ""),
                 "needs_to_manifest": meta.get("needs_to_manifest", ""),
-                "demo_cmd": "cp demo.rs <worktree>/tests/seed_demo.rs && cargo test --offline " + ("--release " if release else "") + "--test seed_demo" + ((" --features " + feats) if feats else ""),
+                "demo_cmd": "cp demo.rs <worktree>/tests/seed_demo.rs && cargo test --offline " + ("--release " if release else "") + ("--no-default-features " if nodef else "") + "--test seed_demo" + ((" --features " + feats) if feats else ""),
                 "source": "independent sub-agent given only the property text and a scratch worktree",
                 "confirmed_by_me": res,
                 "what_i_ran": "in a scratch worktree of /repo HEAD: demo on clean tree (passes), git apply patch.diff, demo (fails), cargo test --offline (60 passed; 0 failed), git checkout -- .",
